@@ -9,6 +9,7 @@
   through any number of NAT hops (`natRewrite` label).
 -/
 import SimVerif.Props.C07
+import SimVerif.Drv.Kernel
 
 namespace SimVerif
 
@@ -67,6 +68,17 @@ theorem C13_only_source_address (ext : String) (pk : Pkt) (chans : List Chan) :
   · intro c ch hty hc hch
     rw [natApply_snd_syn ext pk chans c ch hty hc hch]
     simp [List.getElem?_mapIdx, hch]
+
+/-- the world driver's NAT case IS this function: a packet whose next hop is a NAT is handed to
+    the hop after it as `natApply` left it, with the channel table `natApply` returned -/
+theorem C13_forwardPkt_is_natApply (p : KParams) (f : Nat) (name ext : String) (rest : List String) (pk : Pkt)
+    (s : Drv.KSt) (hn : name.startsWith "@" = false) (hh : s.hops.lookup name = some (.nat ext)) :
+    Drv.forwardPkt p (f + 1) { pk with hops := name :: rest } s
+      = Drv.forwardPkt p f (natApply ext { pk with hops := rest } s.net.chans).1
+          { s with net := { s.net with chans := (natApply ext { pk with hops := rest } s.net.chans).2 } } := by
+  rw [Drv.forwardPkt]
+  simp only [hn, hh]
+  rfl
 
 /-- **`C13_only_syn_rewrites`** (the repaired behaviour, fda8448): a packet that is not a SYN
     leaves the channel table untouched. -/
